@@ -1,0 +1,84 @@
+//go:build verif
+
+package mangos
+
+import "sync/atomic"
+
+// Verification ledger (build tag verif): every NewMessage / Clone / Free /
+// MakeUnique is reported to VerifHook, and a message's buffers are
+// overwritten when it is released, so that a use after release shows.
+
+// VerifOp identifies a ledger operation.
+type VerifOp int
+
+// Ledger operations.
+const (
+	VerifOpNew     VerifOp = iota + 1 // arg: requested size
+	VerifOpClone                      // ref = count before the increment
+	VerifOpFree                       // ref = count before the decrement
+	VerifOpRelease                    // count reached zero; arg: class the buffer goes back to (-1 none)
+	VerifOpUnique                     // copy made because the message was shared
+)
+
+// VerifHook, if set, is called for every ledger operation.
+var VerifHook func(op VerifOp, m *Message, ref int32, arg int)
+
+// VerifPoison makes Release overwrite the message's buffers.
+var VerifPoison bool
+
+func verifNew(m *Message, sz int) {
+	if h := VerifHook; h != nil {
+		h(VerifOpNew, m, 1, sz)
+	}
+}
+
+func verifClone(m *Message) {
+	if h := VerifHook; h != nil {
+		h(VerifOpClone, m, atomic.LoadInt32(&m.refcnt), 0)
+	}
+}
+
+func verifFree(m *Message) {
+	if h := VerifHook; h != nil {
+		h(VerifOpFree, m, atomic.LoadInt32(&m.refcnt), 0)
+	}
+}
+
+func verifRelease(m *Message) {
+	class := -1
+	for i := range messageCache {
+		if m.bsize == messageCache[i].maxbody {
+			class = messageCache[i].maxbody
+		}
+	}
+	if h := VerifHook; h != nil {
+		h(VerifOpRelease, m, 0, class)
+	}
+	if VerifPoison {
+		b := m.bbuf[:cap(m.bbuf)]
+		for i := range b {
+			b[i] = 0xDD
+		}
+		hb := m.hbuf[:cap(m.hbuf)]
+		for i := range hb {
+			hb[i] = 0xDD
+		}
+		if cap(m.Body) > 0 {
+			bb := m.Body[:cap(m.Body)]
+			for i := range bb {
+				bb[i] = 0xDD
+			}
+		}
+	}
+}
+
+func verifUnique(m, d *Message) {
+	if h := VerifHook; h != nil {
+		h(VerifOpUnique, m, atomic.LoadInt32(&m.refcnt), 0)
+	}
+}
+
+// VerifMsgCaps returns (cap of the body buffer, cap of the header buffer, pool size class or 0).
+func VerifMsgCaps(m *Message) (int, int, int) {
+	return cap(m.bbuf), cap(m.hbuf), m.bsize
+}
